@@ -34,8 +34,9 @@ p = ROOT + '/DESIGN.md'
 s = open(p).read()
 a = s.find('### 7.4 Which check catches which seeded change')
 if a >= 0:
-    b = s.find('\n### 7.5', a)
-    s = s[:a] + txt + (s[b + 1:] if b >= 0 else '')
+    import re as _re
+    m = _re.search(r'\n### 7\.\d', s[a + 5:])
+    s = s[:a] + txt + ('\n' + s[a + 5 + m.start() + 1:] if m else '')
 else:
     s += '\n' + txt
 open(p, 'w').write(s)
